@@ -75,5 +75,19 @@ PROPS = {
                      "a panic is observed as an unwind through catch_unwind",
                      "expected exponents of named constants are parsed from the constant's NAME by lib/gen_constants.py"],
     ),
+    "C05": dict(
+        run=native, level=EXPL, technique="metamorphic runtime monitor over scripted fault histories (error provenance, reset==fresh-instance, None-deletion, get-purity; bit-exact between runs of the real code)",
+        rule="per stream type (14 incl. f32/Quantity variants) seeded histories of length <=48 over {present, absent, Err(1), Err(2)} from four grammar styles (iid, runs separated by resets, noise, reset followed by >=3 present), CommandPID also set(same/other value/other kind), freeze also condition {true,false,absent}; distinct = (stream, set of adjacent event-kind pairs, length class)",
+        assumptions=["reset table per stream taken from the property anchors (PID/Integral/Derivative: None+Err; CommandPID: None+Err+set(different); EWMA/MovingAverage/to-state: Err, None ignored; Float/Quantity converters: every update)",
+                     "freeze is not driven with an erroring condition getter (statement silent); after cond=absent then cond=true both absent and the last passed value are accepted",
+                     "timestamps strictly increasing for PID/CommandPID/integral/derivative/to-state, non-decreasing for the filters"],
+    ),
+    "C04": dict(
+        run=native, level=EXPL, technique="runtime reference-model monitor (f64 textbook PID with forward error bound) + bit-exact metamorphic relations + differential against the controller assembled from the crate's own streams",
+        rule="seeded histories of length <=64 from the grammar run((absent|error)+ run)* with run lengths 1,2,3,4-9,10-39, intervals log-uniform 1us..10h (every third history constant-interval), gains/setpoint/samples stratified in +-1e4 incl. zeros; distinct = (set of run-length classes, set of interval decades, absent count class, error count class)",
+        assumptions=["strictly increasing timestamps by construction (dt=0 is outside the quantifier)",
+                     "forward bound (40+4n)*2^-24*(|kp e| + |ki| sum|addend| + |kd|(|e|+|e_prev|)/dt), n = samples in the run; largest observed ratio is reported as reference_err_over_bound",
+                     "the assembled controller updates every node at every step (examples/pid.rs stops at the first erroring node, which would leave the derivative stream unreset)"],
+    ),
 }
 NOT_APPLICABLE = {}
